@@ -2,7 +2,7 @@
 
 Space : K parser slots (2 quick / 3 thorough), 3 documents (D0; D1 re-using D0's names with other
         payload; D2 failing half-way), operations new(slot,doc) / new(slot)+load_file(doc) /
-        process(slot); ALL histories to depth 4 (quick) - un-pruned; thorough: un-pruned to depth 4
+        load_file(doc) on the existing instance / process(slot); ALL histories to depth 4 (quick) - un-pruned; thorough: un-pruned to depth 4
         with 3 slots and pruned BFS (state = per slot: document + normal form of the accumulated
         contents + module/class globals) to depth 7.
 Oracle: every successful process() result, normalised by docgen.unparse, equals docgen.expected
@@ -30,8 +30,9 @@ DOCS = [
      ['component', 'C', [['p', ['A', 'I'], 'provides', False]]], ['filename', 'd0.dzn']],
     [['ns', ['A'], [['enum', 'E', ['Y', 'Z']], ['extern', 'T', 'int']]],
      ['component', 'C', []], ['import', 'x.dzn'], ['subint', 'S', 2, 3]],
-    [['enum', 'Early', ['P']], ['ns', ['A'], [['extern', 'T', 'long']]],
-     ['junk', {'<class>': 'component', 'name': D.sn(['Broken'])}], ['enum', 'Late', ['Q']]],
+    # fails half-way, INSIDE a (nested) namespace, after some declarations were already parsed
+    [['enum', 'Early', ['P']], ['ns', ['A'], [['extern', 'T', 'long'], ['ns', ['Deep'], [
+        ['junk', {'<class>': 'component', 'name': D.sn(['Broken'])}]]]]], ['enum', 'Late', ['Q']]],
 ]
 EXPECTED = [D.expected(d) for d in DOCS[:2]] + [None]
 
@@ -57,8 +58,9 @@ def ops_alphabet(nslots):
     ops = []
     for slot in range(nslots):
         for doc in range(len(DOCS)):
-            ops.append(['new', slot, doc])
-            ops.append(['load', slot, doc])
+            ops.append(['new', slot, doc])       # fresh instance constructed with the contents
+            ops.append(['reload', slot, doc])    # load_file on the EXISTING instance of the slot (fresh one if none)
+        ops.append(['load', slot, 0])            # fresh instance without contents + load_file
         ops.append(['process', slot])
     return ops
 
@@ -91,8 +93,9 @@ def run_history(ops):
                 if kind == 'new':
                     slots[slot] = DznJsonAst(json.dumps(D.to_json(DOCS[op[2]])))
                     slotdoc[slot] = op[2]
-                elif kind == 'load':
-                    slots[slot] = DznJsonAst()
+                elif kind in ('load', 'reload'):
+                    if kind == 'load' or slot not in slots:
+                        slots[slot] = DznJsonAst()
                     ret = slots[slot].load_file(doc_file(op[2]))
                     if ret is not slots[slot]:
                         out.append(('load_file-not-fluent', f'op {i}'))
@@ -237,7 +240,7 @@ def explore(ctx):
     bfs_part = Partial()
     pruned_bfs(nslots, 7 if ctx.thorough else 5, bfs_part)
     ctx.merge(bfs_part)
-    ctx.rule = (f'all histories over {len(ops)} operations ({nslots} slots x (3 docs x new/load) + process) of '
+    ctx.rule = (f'all histories over {len(ops)} operations ({nslots} slots x (3 docs x new/reload + load + process)) of '
                 f'length 1..{depth}, each replayed on fresh parser objects (un-pruned); plus a BFS pruned on the '
                 'canonical state (per slot: document, normal form of accumulated contents; class/module globals) '
                 f'to depth {7 if ctx.thorough else 5}; non-trivial = history contains a process()')
